@@ -84,3 +84,35 @@ Example sequential_case_nontrivial :
          (OSeq [OPush PFill; OPush PFill; OPush (PDraw 3); OPush (PDraw 4);
                 OConsume [10; 13] 2 4602678819172646912%Z; OEmpty true]) = true.
 Proof. vm_compute. reflexivity. Qed.
+
+(* a threaded case is outside the open known class exactly when the model's run of it ends with
+   the late-push flag clear *)
+Lemma known_class_None_iff cap progs sched :
+  known_class (CThr cap progs sched) = None <->
+  late (fst (fst (exec_full step site rr_fuel (init_config (N.to_nat cap) progs) (map N.to_nat sched)))) = false.
+Proof.
+  unfold known_class, run_thr.
+  destruct (exec_full step site rr_fuel (init_config (N.to_nat cap) progs) (map N.to_nat sched)) as [cf tr].
+  cbn [fst]. destruct (late (fst cf)); split; intros H; try reflexivity; discriminate.
+Qed.
+
+Require Import MV.C16.ProofsConc3.
+From Coq Require Import Permutation.
+
+(* outside the open known class: every drain of the run the correspondence check replays *)
+Theorem accounting_outside_known_class : forall cap progs sched,
+  known_class (CThr cap progs sched) = None ->
+  let c := fst (exec_full step site rr_fuel (init_config (N.to_nat cap) progs) (map N.to_nat sched)) in
+  forall d W St, In (d, W, St) (glog (fst c)) ->
+    Permutation St W /\
+    d_unsampled d = N.of_nat (length St) /\
+    d_len d = N.min (d_unsampled d) cap /\
+    N.of_nat (length (d_vals d)) <= d_len d /\
+    (forall v, In v (d_vals d) -> In v St) /\
+    (d_unsampled d <= cap -> d_vals d = firstn (length (d_vals d)) W) /\
+    sample_rate d = (if d_unsampled d <=? cap then (1, 1) else (cap, d_unsampled d)).
+Proof.
+  intros cap progs sched HK c d W St Hin. apply known_class_None_iff in HK.
+  pose proof (accounting_except_late_push_full_run (N.to_nat cap) progs (map N.to_nat sched) rr_fuel HK d W St Hin) as H.
+  rewrite N2Nat.id in H. exact H.
+Qed.
